@@ -804,6 +804,7 @@ func c14E2E(x *vx.X) vx.Result {
 	src := w.Init("src", false)
 	w.MustGit(src, "remote", "add", "origin", remote)
 	w.MustGit(src, "config", "lfs.url", srv.URL+"/r")
+	w.MustGit(src, "config", "filter.lfs.process", "") // the source repository is built with the one-shot filters, not with the subject
 	gitx.WriteFile(src, ".gitattributes", []byte("*.bin filter=lfs diff=lfs merge=lfs -text\n"), 0644)
 	w.MustGit(src, "add", ".")
 	w.MustGit(src, "commit", "-qm", "attrs")
@@ -937,6 +938,7 @@ func c14ProgramsScenario(c *vx.Check, extra map[string]interface{}) vx.Part {
 		fmt.Printf("  level %v\n", l)
 	}
 	extra["bfs"] = info
+	extra["outcome_histogram_programs"] = st.Outcomes
 	return vx.Part{Scenario: "programs", Stats: st, Exec: exec}
 }
 
